@@ -1,5 +1,6 @@
 //! unit: u05c
-//! properties: C05 C10 C01
+//! properties: C05 C10 C01 C02 C09
+//! note: also run for C02, C09: the code it constrains lies inside mechanisms those properties name (a change made there for their sake must meet these clauses too)
 //! note: "fully signed newer commitment": the signature checks of ChannelContext::validate_commitment_signed (the only verifier of a peer's commitment_signed: plain, batched splice and initial splice commitments all pass through it)
 //! trusted: R15 (statement slicing): validate_commitment_signed builds bitcoin transactions and sighashes through rust-bitcoin/secp256k1; the unit extracts, on every run, its three checks verbatim - the commitment signature test, the HTLC-signature count test and the per-HTLC signature test inside the zip loop - in their original order; building the transactions, the fee check (validate_update_fee), HolderCommitmentTransaction::new and the signer's validate_holder_commitment are dropped and not claimed; the dropped statements between and after the first check are matched with a capture kind that refuses return / break / continue, so nothing dropped can leave the function or the loop early with Ok
 //! trusted: R15 (statement slicing): revoke_and_ack: the unit extracts the statements from `let secret = ..` to the signer validation (the two acceptance gates), the provide_secret call and the three statements advancing the counterparty's commitment number and points, verbatim and in order; the state pre-checks before them (quiescent / not ready / disconnected / closing: all early Err returns), the signer's validate_counterparty_revocation, the monitor update and the HTLC state walk after them are dropped and not claimed; secp_check!(SecretKey::from_slice(..)) becomes the parameter `secret` (any valid scalar)
